@@ -138,7 +138,21 @@ def one(cfg: Tuple[int, int, Shape, str]) -> Dict[str, Any]:
         for j, (ms, (S, L, _, _)) in enumerate(zip(rd.memory_segments, segs)):
             items.append((z3.And(to_z3(ms.segment_start) == to_z3(S), to_z3(ms.segment_length) == to_z3(L)),
                           f'{tag}: segment {j} start/length'))
-        E.prove_all(items)
+        if not E.prove_all(items):
+            return
+        # the lazily-zero tails as the engines see them: through the Reader's own accessor at a symbolic address inside each
+        from flipjump.fjm.fjm_reader import GarbageHandling
+        from flipjump.utils.exceptions import FlipJumpRuntimeMemoryException
+        rd.garbage_handling = GarbageHandling.Stop
+        for j, (a, b) in enumerate(list(rd.zeros_boundaries)):
+            A = sym_int(f'AQ{j}', 0, (1 << w) - 1)
+            if not E.branch(z3.And(to_z3(A) >= to_z3(a), to_z3(A) < to_z3(b))):
+                continue
+            try:
+                got = rd._get_memory_word(A)
+                E.prove(to_z3(got) == 0, f'{tag}: a word of lazy-zero tail {j} reads 0 through the reader\'s accessor')
+            except FlipJumpRuntimeMemoryException:
+                E.prove(z3.BoolVal(False), f'{tag}: the reader\'s accessor refuses a word of lazy-zero tail {j}')
         if rd.zeros_boundaries:
             E.witness('roundtrip:lazy-zero-tail', True)
         if any(dl for _, _, _, dl in segs) and version >= 2:
@@ -208,6 +222,28 @@ def replay_case(case: Dict[str, Any]) -> Dict[str, Any]:
             rd = Reader(path)
         except (FlipJumpReadFjmException) as e:
             return {'differs': True, 'outcome': f'writer accepted, reader refuses: {e}'}
+        if 'lazy-zero tail' in case.get('label', ''):
+            # the symbolic runs use a dense/lazy threshold of 3 words instead of 1000 (a stub listed in the evidence); the same file
+            # is loaded again with that threshold so that the model's short zero tails are lazy, and read through the accessor
+            from flipjump.fjm import fjm_reader as fr
+            from flipjump.fjm.fjm_reader import GarbageHandling
+            from flipjump.utils.exceptions import FlipJumpRuntimeMemoryException
+            keep = fr._reserved_dict_threshold
+            fr._reserved_dict_threshold = 3
+            try:
+                rd2 = Reader(path, garbage_handling=GarbageHandling.Stop)
+                badz = []
+                for S, L, ds, dl in segs:
+                    for t in range(dl, min(L, dl + 64)):
+                        try:
+                            v = rd2._get_memory_word(S + t)
+                            if v != 0:
+                                badz.append((S + t, v, 0))
+                        except FlipJumpRuntimeMemoryException:
+                            badz.append((S + t, 'refused (out of every segment)', 0))
+            finally:
+                fr._reserved_dict_threshold = keep
+            return {'differs': bool(badz), 'outcome': 'loaded (lazy threshold 3)', 'mismatch(addr,got,want)': badz[:3]}
         exp: Dict[int, int] = {}
         for S, L, ds, dl in segs:
             for t in range(min(L, 5000)):
@@ -224,6 +260,10 @@ def replay_case(case: Dict[str, Any]) -> Dict[str, Any]:
 
 def replay(path: str) -> int:
     case = json.loads(open(path).read())
+    if 'lzma_preset' in case:
+        part = _lzma_job(case['lzma_preset'])
+        print(json.dumps(part['violations'] or part['samples'], indent=1, default=str))
+        return 1 if part['violations'] else 0
     rep = replay_case(case)
     print(json.dumps(rep, indent=1, default=str))
     return 1 if rep['differs'] else 0
@@ -257,6 +297,40 @@ def threshold_concrete(report: Report) -> None:
         shutil.rmtree(d, ignore_errors=True)
 
 
+def _lzma_job(preset: int) -> Dict[str, Any]:
+    """the assumption under the LZMA stub, checked on the real code: what the Writer compresses with this preset, the Reader decompresses
+    to the same bytes - on a buffer whose matches reach further back than the reader's default dictionary (8 MiB)"""
+    common.use_repo()
+    import lzma
+    import random
+    from flipjump.fjm.fjm_writer import Writer
+    from flipjump.fjm.fjm_reader import Reader
+    from flipjump.fjm.fjm_consts import FJMVersion
+    from flipjump.utils.exceptions import FlipJumpReadFjmException
+    rnd = random.Random(preset)
+    blk = rnd.randbytes(1 << 20)
+    data = blk + rnd.randbytes(9 << 20) + blk
+    wr = Writer(Path('/nonexistent/x.fjm'), 64, FJMVersion(3), lzma_preset=preset)
+    t0 = time.time()
+    comp = wr._compress_data(data)
+    try:
+        back = Reader._decompress_data(comp)
+        ok = back == data
+        err = None if ok else 'decompressed bytes differ'
+    except FlipJumpReadFjmException as e:
+        ok, err = False, f'{e} <- {e.__cause__!r}'
+    part: Dict[str, Any] = {'configs': 1, 'paths': 0, 'queries': {}, 'solver_s': 0.0, 'obligations': 0, 'discharged': 0, 'witnesses': {},
+                            'samples': [{'lzma_contract_validation': {'preset': preset, 'bytes': len(data), 'compressed': len(comp), 'round_trip': ok,
+                                                                      'wall_s': round(time.time() - t0, 1)}}],
+                            'violations': [], 'inconclusive': [], 'replayed': 1, 'harnesses': {}}
+    if not ok:
+        case = {'lzma_preset': preset}
+        part['violations'].append({'label': f'lzma preset {preset}: the reader cannot decompress what the writer compressed ({err})',
+                                   'signature': f'lzma-contract:preset{preset & 0x1F}', 'replay': common.write_replay('C06', f'lzma_preset_{preset}', case),
+                                   'detail': {'error': err, 'bytes': len(data)}})
+    return part
+
+
 def run(report: Report, tier: str, only: Optional[str] = None) -> None:
     from flipjump.fjm.fjm_writer import Writer
     from flipjump.fjm.fjm_reader import Reader
@@ -272,7 +346,11 @@ def run(report: Report, tier: str, only: Optional[str] = None) -> None:
                           'int_encoding': '96-bit vectors with interval overflow guard'})
     report.outside += ['the LZMA bit stream itself (stubbed by its round-trip contract)', 'lzma preset values (only reach the stub)',
                        'file-system errors', 'more than 3 segments / 8 data words per call sequence']
-    report.assumptions += ['lzma.decompress(lzma.compress(x)) == x for the raw LZMA2 filter chain', 'z3 5.1.0', 'pysym proxies']
+    report.assumptions += ['lzma.decompress(lzma.compress(x)) == x for the raw LZMA2 filter chain (validated on the real Writer._compress_data / '
+                           'Reader._decompress_data per preset on an 11 MiB buffer with matches more than 8 MiB back: not solver-decided)',
+                           'z3 5.1.0', 'pysym proxies']
+    if not only or 'lzma' in only:
+        common.run_pool(_lzma_job, [6, 7, 9] if tier == 'quick' else list(range(10)) + [9 | 0x80000000], report)
     report.require_witnesses('roundtrip:written', 'roundtrip:rejected-by-writer', 'roundtrip:lazy-zero-tail',
                              'roundtrip:relative-jumps')
     widths = (8, 16, 32, 64)
